@@ -2,7 +2,9 @@ def topo_nontrivial(cmd, inp, impl, prev):
     """a look-up that hit something: not a load, not a not-found / empty answer"""
     if cmd == "topo.load":
         return False
-    for dull in ("err ", "xy -1 -1 ", "txt - ", "td 0 0 - - - - 0 0 - ~ 0 ", "ids 0 ", "hwc 0 0 0 - 0 0 0 ~ ", "panic"):
+    if cmd == "topo.jsonraw":
+        return False
+    for dull in ("err ", "xy -1 -1 ", "txt - ", "td 0 0 - - - - 0 0 - ~ 0 ", "ids 0 ", "hwc 0 0 0 - 0 0 0 ~ ", "panic", "alias 0 "):
         if impl.startswith(dull):
             return False
     return True
@@ -16,17 +18,21 @@ PROP = dict(search_rounds=1,
     rule="sessions = one generated topology (0-8 components, 0-12 types; duplicate ids, id 0 / 2^32-1, type 0, types missing "
          "from the index, index key 0, every override attribute alone and all-but-one, random subsets, non-positive numbers in "
          "overrides, comma lists in the input kind) followed by every getter for every present id and several absent ones, every "
-         "slice index -1..len+1, free-standing components, wrapped int ids; every record carries ToJSON() after the call; a record "
-         "is non-trivial when the look-up returned something other than the not-found/empty answer; distinct = distinct record text, "
+         "slice index -1..len+1, free-standing components, wrapped int ids; every record carries ToJSON() after the call; "
+         "topo.alias records: after a getter the harness writes through the returned value (Sub[0].X++ / Disp.W++ / TypeOverride.W++), records whether "
+         "ToJSON() changed, undoes the write — the store-of-cells model predicts each outcome (shared base-type array, shared override cell, "
+         "free-standing override = not topology storage); topo.jsonraw: the raw bytes of ToJSON() against the model's text layer; rotations incl. negative zero; a record "
+         "is non-trivial when the look-up returned something other than the not-found/empty answer (alias: something to write through); distinct = distinct record text, "
          "where every record carries a fingerprint (`#xxxxxxxx`, ignored by executor and driver) of the topology it runs on",
-    trusted_base=["encoding/json text layer (ToJSON output is re-tokenised by Go's own json.Decoder before comparison)",
-                  "float32 Rotate carried as the decimal token encoding/json prints; only compared with \"0\" and copied",
+    trusted_base=["ToJSON() after each call is compared as re-tokenised by Go's own json.Decoder (canonical text); the raw bytes are compared with the model's text layer on topo.jsonraw records (valid UTF-8 strings)",
+                  "float32 Rotate carried as the decimal token encoding/json prints ('0' / '-0' for the zeros); only tested for being a zero (either sign, as Go's != 0 and omitempty do) and copied",
+                  "store-of-cells model: slices cover their whole backing array (true of topologies built by json.Unmarshal or field by field); mutexes are not data",
                   "fmt.Sprint(ptr) != fmt.Sprint(struct{}) in GetHWCTypeDefinition modelled as true for every non-nil override (tied by correspondence incl. all-zero overrides)"],
     assumptions=["component ids / type numbers are uint32, coordinates and sizes Go ints (no 64-bit overflow involved: values are only copied and compared)"],
 )
 
 CLAIM = dict(
-    text="Lean theorem C13.lookup_holds: for every topology (any component list incl. duplicate ids, type 0, types missing from the index; any type index; every combination of the 11 override attributes) and every look-up of the interface (GetHWCs, GetHWCxy, GetHWCtext, GetHWCtype, GetHWCsWithDisplay, GetTypeDefWithOverride, GetHWCTypeDefinition[FromHWCid], GetHWCDefinitionFromHWCid, the predicates) the answer satisfies Spec.Topo.checkLookup: resolved definition = attribute-wise overlay of the override on the indexed base type, documented not-found results for unknown ids, both resolvers agree on the nine shared attributes when the type is indexed, and the topology (hence its serialised form) is unchanged; C13.predicates_depend_only_on_resolved: equal resolved definitions give equal predicate values. The same predicates are evaluated on the real library's answers (incl. ToJSON() after every call); model = code is checked by running both on generated topologies.",
-    note=TB + "encoding/json text layer and float printing trusted; negative slice indices (the second resolver panics) and int ids outside uint32 are outside the property's domain (modelled and compared, not claimed).",
-    technique="Lean 4 proof (induction over the component list / type index, per-attribute overlay lemmas) + model/implementation correspondence",
+    text="Lean theorems (Props/C13.lean, 30 audited). Value level - C13.lookup_holds: for every topology (any component list incl. duplicate ids, type 0, types missing from the index; any type index; every combination of the 11 override attributes) and every look-up of the interface (GetHWCs, GetHWCxy, GetHWCtext, GetHWCtype, GetHWCsWithDisplay, GetTypeDefWithOverride, GetHWCTypeDefinition[FromHWCid], GetHWCDefinitionFromHWCid, the predicates) the answer satisfies Spec.Topo.checkLookup: resolved definition = attribute-wise overlay of the override on the indexed base type, documented not-found results for unknown ids, both resolvers agree on the nine shared attributes when the type is indexed, and the topology (hence its serialised form) is unchanged; C13.preds_meet_spec: every derived predicate has the value of the Spec's independent reading (input kind = first comma-separated token, characterised relationally; kind lists; LED on whole strings; steps = index span; LED-bar steps on 'contains'), C13.predicates_depend_only_on_resolved: equal resolved definitions give equal predicate values. C13.resolveB_eq states exactly what the second resolver returns (overlay with description/render hints of the base type), resolvers_on_unindexed + counterexample pin the divergence for unindexed types, resolveBid_wraps / resolveBid_minus_one say what int ids outside uint32 do (-1 is id 4294967295), not_found_results gives the exact not-found answers incl. the error text. Reference level (store-of-cells model of the TypeOverride/Disp pointers and Sub backing arrays): execR_refines (the value model is its abstraction), lookups_write_no_cell + lookups_do_not_mutate_heap (a look-up only allocates; every existing cell and hence ToJSON() unchanged), returned_refs_alias_storage + alias_hazard_* (the returned definition shares Disp/Sub cells with the topology: a caller writing through it changes ToJSON() - documented hazard, observed on the implementation and predicted record by record). The same predicates are evaluated on the real library's answers (incl. ToJSON() after every call); model = code is checked by running both on generated topologies.",
+    note=TB + "float printing trusted (tokens); negative slice indices (the second resolver panics: resolveB_negative_index_panics) are outside the Spec's domain; int ids outside uint32 are covered through resolveBid_wraps (looked up as their residue).",
+    technique="Lean 4 proof (induction over the component list / type index, per-attribute overlay lemmas, heap-extension frame lemmas for the store-of-cells refinement) + model/implementation correspondence incl. aliasing observations",
 )
